@@ -235,15 +235,8 @@ Fixpoint replay_loop (f : row -> bool) (rs : list row) (gfb gfe : Z) (s : st) : 
 
 Definition fits_int64 (z : Z) : bool := (INT64_MIN <=? z) && (z <=? INT64_MAX).
 
-(* begin_s / end_s: the values of tags 7 and 16 of the request, None when the tag is absent.
-   Returns the state afterwards and the exception that left _process_resend (the dispatcher's
-   `except Exception` swallows it after logging). *)
-Definition process_resend (f : row -> bool) (begin_s end_s : option str) (s : st) : st * option exc :=
-  let s := if cstate s =? ST_AWAITING then s else state_set ST_HANDLING s in
-  match begin_s with None => (s, Some ETagNotFound) | Some bs =>
-  match py_int bs with None => (s, Some EValue) | Some b =>
-  match end_s with None => (s, Some ETagNotFound) | Some es =>
-  match py_int es with None => (s, Some EValue) | Some e0 =>
+(* the handler after BeginSeqNo / EndSeqNo were read: b = int(tag 7), e0 = int(tag 16) *)
+Definition resend_body (f : row -> bool) (b e0 : Z) (s : st) : st * option exc :=
     let e := if e0 =? 0 then sys_maxsize else e0 in
     (* sqlite3 refuses to bind integers outside 64 bits (OverflowError) *)
     if negb (fits_int64 b && fits_int64 e) then (s, Some EOverflow) else
@@ -266,5 +259,15 @@ Definition process_resend (f : row -> bool) (begin_s end_s : option str) (s : st
                 end
             end
         end
-    end
+    end.
+
+(* begin_s / end_s: the values of tags 7 and 16 of the request, None when the tag is absent.
+   Returns the state afterwards and the exception that left _process_resend (the dispatcher's
+   `except Exception` swallows it after logging). *)
+Definition process_resend (f : row -> bool) (begin_s end_s : option str) (s : st) : st * option exc :=
+  let s := if cstate s =? ST_AWAITING then s else state_set ST_HANDLING s in
+  match begin_s with None => (s, Some ETagNotFound) | Some bs =>
+  match py_int bs with None => (s, Some EValue) | Some b =>
+  match end_s with None => (s, Some ETagNotFound) | Some es =>
+  match py_int es with None => (s, Some EValue) | Some e0 => resend_body f b e0 s
   end end end end.
